@@ -88,7 +88,165 @@ class PlainCount(C05CombineMapper):
         return 1
 
 
+# ---- round 2: classes that OVERRIDE handlers their base also exposes under alias names --
+# (IdentityMapper.map_product = map_sum, map_floor_div = map_remainder = map_quotient, ...;
+# Collector.map_variable = map_constant).  Python keeps the aliases bound to the BASE's
+# function; an override serves its own name only.  Every overriding body marks its result
+# with its own method name (C05_Fresh!MarkCombine).
+def c05_mark_tree(name, kids):
+    return c05_prim.Call(c05_prim.Variable("ov_" + name), tuple(kids))
+
+
+class _OvIdentHandlers:
+    def map_variable(self, expr):
+        return c05_prim.Variable(expr.name + "_r")
+
+    def map_sum(self, expr):
+        return c05_mark_tree("map_sum", [self.rec(ch) for ch in expr.children])
+
+    def map_quotient(self, expr):
+        return c05_mark_tree("map_quotient",
+                             [self.rec(expr.numerator), self.rec(expr.denominator)])
+
+    def map_bitwise_or(self, expr):
+        return c05_mark_tree("map_bitwise_or", [self.rec(ch) for ch in expr.children])
+
+    def map_min(self, expr):
+        return c05_mark_tree("map_min", [self.rec(ch) for ch in expr.children])
+
+    def map_left_shift(self, expr):
+        return c05_mark_tree("map_left_shift", [self.rec(expr.shiftee), self.rec(expr.shift)])
+
+    def map_bitwise_not(self, expr):
+        return c05_mark_tree("map_bitwise_not", [self.rec(expr.child)])
+
+
+class OptOvIdent(C05CachedIdentityMapper):
+    def map_variable(self, expr):
+        return c05_prim.Variable(expr.name + "_r")
+
+    def map_sum(self, expr):
+        return c05_mark_tree("map_sum", [self.rec(ch) for ch in expr.children])
+
+    def map_quotient(self, expr):
+        return c05_mark_tree("map_quotient",
+                             [self.rec(expr.numerator), self.rec(expr.denominator)])
+
+    def map_bitwise_or(self, expr):
+        return c05_mark_tree("map_bitwise_or", [self.rec(ch) for ch in expr.children])
+
+    def map_min(self, expr):
+        return c05_mark_tree("map_min", [self.rec(ch) for ch in expr.children])
+
+    def map_left_shift(self, expr):
+        return c05_mark_tree("map_left_shift", [self.rec(expr.shiftee), self.rec(expr.shift)])
+
+    def map_bitwise_not(self, expr):
+        return c05_mark_tree("map_bitwise_not", [self.rec(expr.child)])
+
+    def get_cache_key(self, expr):
+        return (type(expr), expr)
+
+
+class PlainOvIdent(_OvIdentHandlers, C05IdentityMapper):
+    pass
+
+
+def c05_mark_set(name, kids):
+    res = {c05_prim.Variable("ov_" + name)}
+    for k in kids:
+        res = res | k
+    return res
+
+
+class _OvCollectorHandlers:
+    def map_constant(self, expr):
+        return c05_mark_set("map_constant", [])
+
+    def map_sum(self, expr):
+        return c05_mark_set("map_sum", [self.rec(ch) for ch in expr.children])
+
+    def map_quotient(self, expr):
+        return c05_mark_set("map_quotient",
+                            [self.rec(expr.numerator), self.rec(expr.denominator)])
+
+    def map_list(self, expr):
+        return c05_mark_set("map_list", [self.rec(ch) for ch in expr])
+
+
+class OptOvCollector(C05CachedCollector):
+    def map_constant(self, expr):
+        return c05_mark_set("map_constant", [])
+
+    def map_sum(self, expr):
+        return c05_mark_set("map_sum", [self.rec(ch) for ch in expr.children])
+
+    def map_quotient(self, expr):
+        return c05_mark_set("map_quotient",
+                            [self.rec(expr.numerator), self.rec(expr.denominator)])
+
+    def map_list(self, expr):
+        return c05_mark_set("map_list", [self.rec(ch) for ch in expr])
+
+    def get_cache_key(self, expr):
+        return (type(expr), expr)
+
+
+class PlainOvCollector(_OvCollectorHandlers, C05Collector):
+    pass
+
+
+class _OvCountHandlers:
+    def combine(self, values):
+        return sum(values)
+
+    def map_variable(self, expr):
+        return 1
+
+    def map_constant(self, expr):
+        return 1
+
+    def map_sum(self, expr):
+        return 100 + sum([self.rec(ch) for ch in expr.children])
+
+    def map_left_shift(self, expr):
+        return 100 + self.rec(expr.shiftee) + self.rec(expr.shift)
+
+    def map_bitwise_not(self, expr):
+        return 100 + self.rec(expr.child)
+
+
+class OptOvCount(C05CachedCombineMapper):
+    def combine(self, values):
+        return sum(values)
+
+    def map_variable(self, expr):
+        return 1
+
+    def map_constant(self, expr):
+        return 1
+
+    def map_sum(self, expr):
+        return 100 + sum([self.rec(ch) for ch in expr.children])
+
+    def map_left_shift(self, expr):
+        return 100 + self.rec(expr.shiftee) + self.rec(expr.shift)
+
+    def map_bitwise_not(self, expr):
+        return 100 + self.rec(expr.child)
+
+    def get_cache_key(self, expr):
+        return (type(expr), expr)
+
+
+class PlainOvCount(_OvCountHandlers, C05CombineMapper):
+    pass
+
+
 COUNTERPART = {
+    "OptOvIdent": "PlainOvIdent",
+    "OptOvCollector": "PlainOvCollector",
+    "OptOvCount": "PlainOvCount",
     "OptRenamerArgs": "PlainRenamerArgs",
     "OptRenamerStock": "PlainRenamer",
     "OptRenamerKey": "PlainRenamer",
